@@ -11,5 +11,5 @@ OnePure == {"q_state"}
 QuickPure == {"q_state", "conv_gate", "proj_state", "proj_gate", "proj_povm", "proj_mprocess", "compose", "tensor", "var_roundtrip", "copy_mutate"}
 AllPure == QuickPure \cup {"q_povm", "q_gate", "q_mprocess", "conv_state", "conv_povm", "conv_mprocess",
                            "physproj_state", "physproj_gate", "physproj_povm", "physproj_mprocess",
-                           "compose_m", "tensor_gm", "gradient", "lindbladian", "ensemble", "basis_write", "stacked_var"}
+                           "compose_m", "tensor_gm", "gradient", "lindbladian", "ensemble", "stacked_var"}
 =============================================================================
